@@ -107,6 +107,9 @@ func (s *Sys) setup(db, lease string) error {
 	return nil
 }
 
+// Terminal reports that this state must not be explored further.
+func (s *Sys) Terminal() bool { return s.dead || s.broken }
+
 func (s *Sys) Close() {
 	if s.inst != nil {
 		s.inst.VerifClose()
